@@ -41,7 +41,7 @@ TOY = {
     "t13_19": (13, 0, 2, (1, 9), 19, 1),      # n > p          (tests: ec13_19)
     "t23_11c3": (23, 1, 11, (7, 4), 11, 3),   # true cofactor 3: x_K // n reaches 2
     "t19_13n2": (19, 0, 2, (4, 16), 13, 2),   # nominal cofactor 2 (13 points; tests: ec19_13)
-    "t37_11c4": (37, 1, 7, (0, 9), 11, 4),    # true cofactor 4
+    "t37_11c4": (37, 1, 10, (1, 7), 11, 4),   # true cofactor 4 (G checked to have order n by the group table below)
     "t23_31": (23, 5, 1, (0, 1), 31, 1),      # n > p          (tests: ec23_31)
     "t23_13c2": (23, 1, 18, (0, 8), 13, 2),   # true cofactor 2
     "t17_13": (17, 6, 8, (0, 12), 13, 2),     # p = 1 mod 8: sign/verify only (shared model has no Tonelli-Shanks)
@@ -85,6 +85,10 @@ class Table:
         self.G = ec.G
         self.torsion_x = {x for (x, y) in self.points if y == 0}
         self.keys = [P for P in self.points if P[1] != 0]
+        # the constructor's own order check is not relied upon (it accepts generators of order 2n on even-order
+        # curves): the harness only uses toy curves whose G has order exactly n in the brute-force group
+        if self.mul(self.n, self.G) is not None or any(self.mul(d, self.G) is None for d in range(1, self.n)):
+            raise common.HarnessError(f"toy curve {ec!r}: G does not have order n in the brute-force group")
 
     def add(self, P, Q):
         if P is None:
@@ -408,6 +412,8 @@ def _o_chain_toy(w):
             if Q not in Rs:
                 return False, f"signer's key {Q} not among recover_pub_keys_ {Rs}"
             for R in Rs:
+                if R[1] == 0:
+                    continue   # a y = 0 "key": the open finding `recover-returns-y0-point`, oracle recoverall.valid_keys
                 if not dsa.verify_(m, R, sig):
                     return False, f"recovered key {R} does not verify r={sig.r} s={sig.s}"
         out.append(f"{sig.r},{sig.s},{kid}")
@@ -546,7 +552,55 @@ def _safe(fn):
     return g
 
 
+def _o_recover_valid_key(w):
+    """a key that _recover_pub_key_ answers is a key (y != 0) and verifies the signature it was recovered from."""
+    ec = curve(w["curve"])
+    c, r, s, kid = w["c"], w["r"], w["s"], w["kid"]
+    try:
+        Q = ec.aff_from_jac_var(dsa._recover_pub_key_(kid, c, r, s, ec, lower_s=False))
+    except Exception as e:  # noqa: BLE001
+        return _err_class(e) in ("value", "runtime"), f"refused: {type(e).__name__}"
+    if Q[1] == 0:
+        return False, f"_recover_pub_key_(key_id={kid}, c={c}, r={r}, s={s}) answered {Q}: y = 0, no public key"
+    if 0 < r < ec.n and 0 < s < ec.n and not dsa.verify_(digest_for(c, ec), Q, dsa.Sig(r, s, ec, check_validity=False)):
+        return False, f"recovered key {Q} does not verify (r={r}, s={s}, c={c})"
+    return True, f"{Q}"
+
+
+def _o_recoverall_valid(w):
+    """every key recover_pub_keys_ lists for an honest signature is a key (y != 0) and verifies it."""
+    ec = curve(w["curve"])
+    c, q, k = w["c"], w["q"], w["k"]
+    try:
+        sig = dsa._sign_(c, q, k, False, ec)
+    except Exception as e:  # noqa: BLE001
+        return _err_class(e) == "runtime", "sign refused"
+    m = digest_for(c, ec)
+    for R in dsa.recover_pub_keys_(m, sig):
+        if R[1] == 0:
+            return False, f"recover_pub_keys_ lists {R} (y = 0, no public key) for the honest signature r={sig.r} s={sig.s} (c={c} q={q} k={k})"
+        if not dsa.verify_(m, R, sig):
+            return False, f"listed key {R} does not verify r={sig.r} s={sig.s}"
+    return True, "ok"
+
+
+def _o_noncanon_toy(w):
+    """a key written with x outside 0..p-1 is no key: verify_ may refuse it, never accept what the point refuses."""
+    tok = w["curve"]
+    ec, T = curve(tok), table(tok)
+    c, Q, r, s = w["c"], tuple(w["Q"]), w["r"], w["s"]
+    want = T.sec1_verify(c, Q, r, s)
+    sig = dsa.Sig(r, s, ec, check_validity=False)
+    m = digest_for(c, ec)
+    for Q2 in ((Q[0] + ec.p, Q[1]), (Q[0] - ec.p, Q[1])):
+        if dsa.verify_(m, Q2, sig) and not want:
+            return False, f"verify_ True under the non-canonical key {Q2} where the point {Q} does not verify"
+    return True, f"SEC1={want}"
+
+
 ORACLES = {k: _safe(v) for k, v in {
+    "recover.valid_key": _o_recover_valid_key, "noncanon.toy": _o_noncanon_toy,
+    "recoverall.valid_keys": _o_recoverall_valid,
     "chain.toy": _o_chain_toy, "sec1.toy": _o_sec1_toy, "chain.pub": _o_chain_pub,
     "der.roundtrip": _o_der_roundtrip, "der.canonical": _o_der_canonical, "bms.chain": _o_bms}.items()}
 
@@ -756,8 +810,11 @@ def run(ctx):  # noqa: C901, PLR0912, PLR0915
             for q in range(1, n):
                 for k in (range(1, n) if (thorough or c in cs) else [rng.randrange(1, n)]):
                     ctx.check("chain.toy", {"curve": tok, "c": c, "q": q, "k": k})
+                    if T.torsion_x and sq:
+                        ctx.check("recoverall.valid_keys", {"curve": tok, "c": c, "q": q, "k": k},
+                                  key="recover-returns-y0-point")
         # verification: every (r, s) in 0..n+1, every key point (+ points that are no key), chosen challenges
-        keys = T.keys + [(T.keys[0][0], (T.keys[0][1] + 1) % ec.p), (0, 0), (ec.p, 1)]
+        keys = T.keys + [(T.keys[0][0], (T.keys[0][1] + 1) % ec.p), (0, 0), (1, ec.p), (1, -1)]
         vlines, skipped, vwit = [], 0, []
         for c in cs:
             m = hx(digest_for(c, ec))
@@ -809,9 +866,36 @@ def run(ctx):  # noqa: C901, PLR0912, PLR0915
                             ra.append(f"ecdsa.recoverall {tok} {c} {r} {s} 0")
                             if 0 < r < n and 0 < s < n:
                                 ra.append(f"ecdsa.recoverall_ {tok} sha256 {hx(digest_for(c, ec))} {r} {s}")
-            ctx.stream(f"toy.recover[{name}]", rl)
-            ctx.stream(f"toy.recoverall[{name}]", ra)
+            for sname, lst in ((f"toy.recover[{name}]", rl), (f"toy.recoverall[{name}]", ra)):
+                kept = []
+                for ln in lst:
+                    out = impl(ln)
+                    t = ln.split(" ")
+                    if out == "inf" or (out.startswith("ok") and " 0 " in out[2:] + " " and
+                                        any(y == "0" for y in out.split(" ")[2::2])):
+                        # a "key" with y = 0 came back (2-torsion point / btclib's spelling of infinity): outside
+                        # the abstraction; it is a finding of its own on the real code
+                        if t[0] == "ecdsa.recover":
+                            ctx.check("recover.valid_key", {"curve": tok, "kid": int(t[2]), "c": int(t[3]), "r": int(t[4]),
+                                                            "s": int(t[5])}, key="recover-returns-y0-point")
+                        ctx.count("recover_y0_key_oracle_only", name)
+                        continue
+                    kept.append((ln, out))
+                    # soundness on arbitrary (r, s): a key that is answered satisfies the SEC 1 equation (group table)
+                    if t[0] == "ecdsa.recover" and out.startswith("ok "):
+                        Qr = (int(out.split(" ")[1]), int(out.split(" ")[2]))
+                        c_, r_, s_ = int(t[3]), int(t[4]), int(t[5])
+                        good = T.sec1_verify(c_, Qr, r_, s_) or not (0 < r_ < n and 0 < s_ < n)
+                        ctx.oracle("recover.sound", good, f"{ln} -> {out}: the key does not satisfy SEC 1",
+                                   witness={"oracle": "recover.valid_key", "witness": {"curve": tok, "kid": int(t[2]), "c": c_,
+                                                                                       "r": r_, "s": s_}})
+                batch.cases(sname, kept)
             ctx.exhaustive_streams.append(f"toy.recover[{name}]")
+            # keys written with a coordinate outside 0..p-1 are no keys: never a wrongful True
+            for Q in T.keys[: (len(T.keys) if thorough else 4)]:
+                for r in range(1, n):
+                    for s in range(1, n, 1 if thorough else 3):
+                        ctx.check("noncanon.toy", {"curve": tok, "c": cs[0], "Q": list(Q), "r": r, "s": s})
         # RFC 6979 on a 4/5-bit order (the candidate loop rejects often), deterministic signing, cracking
         dl = []
         for c in range(n):
@@ -842,6 +926,10 @@ def run(ctx):  # noqa: C901, PLR0912, PLR0915
         if thorough:
             batch.flush()
     batch.flush()
+
+    # the concrete input of the open finding `recover-returns-y0-point` (true cofactor-2 toy curve), both tiers
+    ctx.check("recover.valid_key", {"curve": token("t23_13c2"), "kid": 1, "c": 1, "r": 3, "s": 2},
+              key="recover-returns-y0-point")
 
     # ---- catalogued curves: random + boundary --------------------------------------------------
     names = ["secp256k1", "secp256r1", "secp112r2", "secp160r1", "secp384r1", "secp521r1"]
